@@ -25,7 +25,7 @@ JVP = "pennylane/gradients/jvp.py"
 
 def build(tier, seed):
     from vf.symx.oblig import identity_obligation
-    plan = Plan("C39", level="proof")
+    plan = Plan("C39", level="other")        # every obligation is size-bounded (all values, enumerated shapes): not a proof of the unbounded statement
     plan.explanation = ("the real vjp/jvp utilities are run on object arrays of independent symbolic scalars; every result entry and "
                         "the result shape are compared with the explicit contraction as polynomials (normal form), per shape class")
     plan.trusted_base = ["vf/symx exact ring + Sym scalar", "numpy / autoray structural operations on object arrays (reshape, stack, "
